@@ -1,25 +1,32 @@
-(* C20 driver: runs the extracted Polynom model (coq/Model/Polynom.v) over zp_ops P64 / P62 / P128.
-   One case per line: "<field> <op> <args...>"; elements are lowercase hex residues, vectors are comma
-   separated ("-" = empty), sizes are decimal.  Output: element -> hex, vector -> hex,hex,.. or "-",
-   nat -> decimal, Panic -> "panic", list of polynomials -> polys joined by ';' ("-" when the list is empty). *)
+(* C20 driver: runs the extracted Polynom model (coq/Model/Polynom.v) over
+     f64 / f62 / f128          zp_ops P64 / P62 / P128                      (carrier Z)
+     q64 / q62 / q128          PolynomExt.quad64_ops / quad62_ops / quad128_ops   (carrier Z*Z)
+     c64 / c62                 PolynomExt.cube64_ops / cube62_ops            (carrier Z*Z*Z)
+   One case per line: "<field> <op> <args...>".  A base element is a lowercase hex residue; an extension element is
+   its base coordinates (to_base_elements order) joined by ':' ("7:1", "7:1:1").  Vectors are comma separated
+   ("-" = empty), sizes are decimal.  Output: element, vector ("-" = empty), nat -> decimal, Panic -> "panic",
+   list of polynomials -> polys joined by ';' ("-" when the list is empty). *)
 open Zio
 
 let z = z_of_hex
 let h = hex_of_z
-
-(* tail-recursive list helpers: vectors can hold 1025+ elements *)
-let vec (s : string) : BinNums.coq_Z list =
-  if s = "-" then [] else Stdlib.List.rev (Stdlib.List.rev_map z (Stdlib.String.split_on_char ',' s))
-
 let join (sep : string) (l : string list) : string = Stdlib.String.concat sep l
-let poly (l : BinNums.coq_Z list) : string = join "," (Stdlib.List.rev (Stdlib.List.rev_map h l))
-let sv (l : BinNums.coq_Z list) : string = match l with [] -> "-" | _ -> poly l
-let res = function Polynom.Ok v -> sv v | Polynom.Panic -> "panic"
 
-let res_polys = function
-  | Polynom.Panic -> "panic"
-  | Polynom.Ok [] -> "-"
-  | Polynom.Ok l -> join ";" (Stdlib.List.map poly l)
+(* element syntax per carrier *)
+let pe1 (s : string) : BinNums.coq_Z = z s
+let se1 (v : BinNums.coq_Z) : string = h v
+
+let pe2 (s : string) : BinNums.coq_Z * BinNums.coq_Z =
+  match Stdlib.String.split_on_char ':' s with [ a; b ] -> (z a, z b) | _ -> failwith ("bad quadratic element " ^ s)
+
+let se2 ((a, b) : BinNums.coq_Z * BinNums.coq_Z) : string = h a ^ ":" ^ h b
+
+let pe3 (s : string) : (BinNums.coq_Z * BinNums.coq_Z) * BinNums.coq_Z =
+  match Stdlib.String.split_on_char ':' s with
+  | [ a; b; c ] -> ((z a, z b), z c)
+  | _ -> failwith ("bad cubic element " ^ s)
+
+let se3 (((a, b), c) : (BinNums.coq_Z * BinNums.coq_Z) * BinNums.coq_Z) : string = h a ^ ":" ^ h b ^ ":" ^ h c
 
 let nat (s : string) : Datatypes.nat =
   let n = int_of_string s in
@@ -34,46 +41,69 @@ let flag (s : string) : bool =
   match s with "1" -> true | "0" -> false | _ -> failwith ("bad flag " ^ s)
 
 (* cnt consecutive chunks of n elements of the flat vector *)
-let chunks (n : int) (cnt : int) (l : BinNums.coq_Z list) : BinNums.coq_Z list list =
+let chunks (n : int) (cnt : int) (l : 'a list) : 'a list list =
   let a = Stdlib.Array.of_list l in
   if Stdlib.Array.length a <> n * cnt then failwith "flat vector length <> count * N"
   else Stdlib.List.init cnt (fun i -> Stdlib.List.init n (fun j -> a.((i * n) + j)))
 
-let ops = function
-  | "f64" -> ZpOps.zp_ops ZpOps.coq_P64
-  | "f62" -> ZpOps.zp_ops ZpOps.coq_P62
-  | "f128" -> ZpOps.zp_ops ZpOps.coq_P128
-  | f -> failwith ("unknown field " ^ f)
+(* the op dispatch, written once for every carrier: o = field operations, pe / se = element parser / printer *)
+let eval_with (type a) (o : a FieldOps.coq_FOps) (pe : string -> a) (se : a -> string) (op : string)
+    (args : string list) : string =
+  (* tail-recursive list helpers: vectors can hold 1025+ elements *)
+  let vec (s : string) : a list =
+    if s = "-" then [] else Stdlib.List.rev (Stdlib.List.rev_map pe (Stdlib.String.split_on_char ',' s))
+  in
+  let poly (l : a list) : string = join "," (Stdlib.List.rev (Stdlib.List.rev_map se l)) in
+  let sv (l : a list) : string = match l with [] -> "-" | _ -> poly l in
+  let res = function Polynom.Ok v -> sv v | Polynom.Panic -> "panic" in
+  let res_polys = function
+    | Polynom.Panic -> "panic"
+    | Polynom.Ok [] -> "-"
+    | Polynom.Ok l -> join ";" (Stdlib.List.map poly l)
+  in
+  match (op, args) with
+  | "eval", [ p; x ] -> se (Polynom.eval o (vec p) (pe x))
+  | "eval_many", [ p; xs ] -> sv (Polynom.eval_many o (vec p) (vec xs))
+  | "add", [ a; b ] -> sv (Polynom.add o (vec a) (vec b))
+  | "sub", [ a; b ] -> sv (Polynom.sub o (vec a) (vec b))
+  | "mul", [ a; b ] -> res (Polynom.mul o (vec a) (vec b))
+  | "mul_by_scalar", [ p; k ] -> sv (Polynom.mul_by_scalar o (vec p) (pe k))
+  | "div", [ a; b ] -> res (Polynom.div o (vec a) (vec b))
+  | "syn_div", [ p; a; b ] -> res (Polynom.syn_div o (vec p) (nat a) (pe b))
+  | "syn_div_in_place", [ p; a; b ] -> res (Polynom.syn_div_in_place o (vec p) (nat a) (pe b))
+  | "syn_div_roots_in_place", [ p; roots ] -> res (Polynom.syn_div_roots_in_place o (vec p) (vec roots))
+  | "degree_of", [ p ] -> string_of_int (int_of_nat (Polynom.degree_of o (vec p)))
+  | "remove_leading_zeros", [ p ] -> sv (Polynom.remove_leading_zeros o (vec p))
+  | "poly_from_roots", [ xs ] -> res (Polynom.poly_from_roots o (vec xs))
+  | "interpolate", [ dbg; xs; ys; rlz ] -> res (Polynom.interpolate o (flag dbg) (vec xs) (vec ys) (flag rlz))
+  | "interpolate_batch", [ dbg; n; nx; ny; xs; ys ] ->
+      let ni = int_of_string n in
+      let xss = chunks ni (int_of_string nx) (vec xs) in
+      let yss = chunks ni (int_of_string ny) (vec ys) in
+      res_polys (Polynom.interpolate_batch o (flag dbg) (nat n) xss yss)
+  | "get_power_series", [ b; n ] -> res (Polynom.get_power_series o (pe b) (nat n))
+  | "get_power_series_with_offset", [ b; s; n ] -> res (Polynom.get_power_series_with_offset o (pe b) (pe s) (nat n))
+  | "add_in_place", [ a; b ] -> res (Polynom.add_in_place o (vec a) (vec b))
+  | "mul_acc", [ a; b; c ] -> res (Polynom.mul_acc o (vec a) (vec b) (pe c))
+  | "batch_inversion", [ v ] -> sv (Polynom.batch_inversion o (vec v))
+  | _ -> "driver-error:unknown-op-or-arity:" ^ op
+
+let o64 = ZpOps.zp_ops ZpOps.coq_P64
+let o62 = ZpOps.zp_ops ZpOps.coq_P62
+let o128 = ZpOps.zp_ops ZpOps.coq_P128
 
 let eval = function
   | fld :: op :: args -> (
-      let o = ops fld in
-      match (op, args) with
-      | "eval", [ p; x ] -> h (Polynom.eval o (vec p) (z x))
-      | "eval_many", [ p; xs ] -> sv (Polynom.eval_many o (vec p) (vec xs))
-      | "add", [ a; b ] -> sv (Polynom.add o (vec a) (vec b))
-      | "sub", [ a; b ] -> sv (Polynom.sub o (vec a) (vec b))
-      | "mul", [ a; b ] -> res (Polynom.mul o (vec a) (vec b))
-      | "mul_by_scalar", [ p; k ] -> sv (Polynom.mul_by_scalar o (vec p) (z k))
-      | "div", [ a; b ] -> res (Polynom.div o (vec a) (vec b))
-      | "syn_div", [ p; a; b ] -> res (Polynom.syn_div o (vec p) (nat a) (z b))
-      | "syn_div_in_place", [ p; a; b ] -> res (Polynom.syn_div_in_place o (vec p) (nat a) (z b))
-      | "syn_div_roots_in_place", [ p; roots ] -> res (Polynom.syn_div_roots_in_place o (vec p) (vec roots))
-      | "degree_of", [ p ] -> string_of_int (int_of_nat (Polynom.degree_of o (vec p)))
-      | "remove_leading_zeros", [ p ] -> sv (Polynom.remove_leading_zeros o (vec p))
-      | "poly_from_roots", [ xs ] -> res (Polynom.poly_from_roots o (vec xs))
-      | "interpolate", [ dbg; xs; ys; rlz ] -> res (Polynom.interpolate o (flag dbg) (vec xs) (vec ys) (flag rlz))
-      | "interpolate_batch", [ dbg; n; nx; ny; xs; ys ] ->
-          let ni = int_of_string n in
-          let xss = chunks ni (int_of_string nx) (vec xs) in
-          let yss = chunks ni (int_of_string ny) (vec ys) in
-          res_polys (Polynom.interpolate_batch o (flag dbg) (nat n) xss yss)
-      | "get_power_series", [ b; n ] -> res (Polynom.get_power_series o (z b) (nat n))
-      | "get_power_series_with_offset", [ b; s; n ] -> res (Polynom.get_power_series_with_offset o (z b) (z s) (nat n))
-      | "add_in_place", [ a; b ] -> res (Polynom.add_in_place o (vec a) (vec b))
-      | "mul_acc", [ a; b; c ] -> res (Polynom.mul_acc o (vec a) (vec b) (z c))
-      | "batch_inversion", [ v ] -> sv (Polynom.batch_inversion o (vec v))
-      | _ -> "driver-error:unknown-op-or-arity:" ^ op)
+      match fld with
+      | "f64" -> eval_with o64 pe1 se1 op args
+      | "f62" -> eval_with o62 pe1 se1 op args
+      | "f128" -> eval_with o128 pe1 se1 op args
+      | "q64" -> eval_with PolynomExt.quad64_ops pe2 se2 op args
+      | "q62" -> eval_with PolynomExt.quad62_ops pe2 se2 op args
+      | "q128" -> eval_with PolynomExt.quad128_ops pe2 se2 op args
+      | "c64" -> eval_with PolynomExt.cube64_ops pe3 se3 op args
+      | "c62" -> eval_with PolynomExt.cube62_ops pe3 se3 op args
+      | f -> "driver-error:unknown-field:" ^ f)
   | _ -> "driver-error:short-line"
 
 let () = run eval
